@@ -254,7 +254,7 @@ builder records for it are one NOTE followed by any number of TIE events and of 
   * a tie that follows a REST (`c r ^`) — "extends the previous note" across a rest — has no
     documented meaning: its duration is required (`Timed.free`: TIE or REST events of that
     length), the note before the rest keeps its duration and is only required to be keyed on
-    for 1..`dur` ticks.
+    for at most `dur` ticks (and, like every NOTE event, for at least one: the judge's `sanity`).
 
 `plain` = not edited after the note command (wording of failures only); `afterSep` = the group
 has a tie or slur written AFTER one of its ties that stood behind another event-recording command
@@ -367,9 +367,10 @@ def Item.shorten (σ : St) (it : Item) (dd : Nat) : Item :=
             onLo := if it.slurred then total else min (min it.onLo total) (ruleOf σ.art total),
             onHi := min it.onHi total }
 
-/-- a tie behind a rest may have reached this note: only 1 ≤ key-on ≤ duration is left -/
+/-- a tie behind a rest may have reached this note: only key-on ≤ duration is left (that a NOTE
+event is keyed on for at least one tick is checked on every NOTE event by the judge: `sanity`, D6a) -/
 def Item.loosen (it : Item) : Item :=
-  { it with plain := false, slurred := false, onLo := min it.onLo 1, onHi := it.dur }
+  { it with plain := false, slurred := false, onLo := 0, onHi := it.dur }
 
 def Timed.shorten (σ : St) (dd : Nat) : Timed → Timed
   | .group it => .group (it.shorten σ dd)
